@@ -318,7 +318,9 @@ def suite_cli(seed, tier):
             ind = tmp / "in"
             ind.mkdir()
             (tmp / "api").mkdir()
-            paths = suite_mr.write_inputs(case, ind)
+            # `bb multiround` numbers molecules in sorted-file order: the API reference gets the
+            # files in that order (write_inputs may name them so that it differs from the given one)
+            paths = sorted(suite_mr.write_inputs(case, ind))
             try:
                 suite_mr.run_impl(case, tmp / "api", None, paths=paths)
             except Exception as e:
